@@ -127,6 +127,10 @@ impl Spawner for PoolSpawner {
     }
 }
 
+#[cfg(pendulum_project_ntpd_rs_verif)]
+#[path = "/verif/hooks/ntpd/pool_probe.rs"]
+mod verif_probe;
+
 #[cfg(test)]
 mod tests {
     use ntp_proto::ProtocolVersion;
